@@ -114,6 +114,15 @@ func pairsU(m map[uint]uint) [][2]uint {
 }
 
 func (r *v1run) hook(ev v1.VerifEvent) {
+	if len(r.cfg.Vals) != 0 { // the rest of the harness talks in priority identifiers
+		ev.Priority = r.cfg.rank(ev.Priority)
+		ev.Actual, ev.Tactic, ev.Strategic = r.cfg.rankMap(ev.Actual), r.cfg.rankMap(ev.Tactic), r.cfg.rankMap(ev.Strategic)
+		ps := make([]uint, len(ev.Priorities))
+		for i, p := range ev.Priorities {
+			ps[i] = r.cfg.rank(p)
+		}
+		ev.Priorities = ps
+	}
 	if ev.Ev == "Exit" {
 		r.exited.Store(true)
 	}
@@ -139,7 +148,7 @@ func newV1(t *testing.T, cfg Config, gated bool) *v1run {
 	inputs := map[uint]<-chan int{}
 	for _, p := range cfg.Prios {
 		if c := cfg.InitChan[key(p)]; c != 0 {
-			inputs[p] = r.ch[c]
+			inputs[cfg.val(p)] = r.ch[c]
 			r.reg[p] = c
 			r.chPrio[c] = p
 		}
@@ -155,7 +164,11 @@ func newV1(t *testing.T, cfg Config, gated bool) *v1run {
 	base := dividerV1(cfg.Div)
 	div := func(ps []uint, d uint, dist map[uint]uint) map[uint]uint {
 		r.divCalls++
-		noteContract(cfg.Prios, cfg.H, ps, d, dist != nil, true)
+		rps := make([]uint, len(ps))
+		for i, p := range ps {
+			rps[i] = cfg.rank(p)
+		}
+		noteContract(cfg.Prios, cfg.H, rps, d, dist != nil, true)
 		before := uint(0)
 		for _, v := range dist {
 			before += v
@@ -327,6 +340,7 @@ func (r *v1run) closeIn(c int) {
 func (r *v1run) recv() bool {
 	select {
 	case x := <-r.out:
+		x.Priority = r.cfg.rank(x.Priority)
 		r.held = append(r.held, x.Priority)
 		r.emit(obs{E: "R", P: x.Priority, C: uint(x.Item / 1000), K: x.Item % 1000})
 		return true
@@ -341,7 +355,7 @@ func (r *v1run) release(i int) {
 	r.emit(obs{E: "L", P: p})
 	go func() {
 		select {
-		case r.fb <- p:
+		case r.fb <- r.cfg.val(p):
 		case <-r.stop:
 		}
 	}()
@@ -423,7 +437,7 @@ func (r *v1run) control(what string) bool {
 		r.addsLeft = r.addsLeft[1:]
 		r.addRm.Add(1)
 		c, p := a[0], uint(a[1])
-		r.ctl("AddCall", func() { r.d.AddInput(r.ch[c], p); r.addRm.Add(-1) }, obs{E: "AddRet", C: uint(c), P: p})
+		r.ctl("AddCall", func() { r.d.AddInput(r.ch[c], r.cfg.val(p)); r.addRm.Add(-1) }, obs{E: "AddRet", C: uint(c), P: p})
 	case "rmv":
 		if r.terminating() || r.faultBad || len(r.rmvsLeft) == 0 {
 			return true
@@ -435,7 +449,7 @@ func (r *v1run) control(what string) bool {
 			return true
 		}
 		r.addRm.Add(1)
-		r.ctl("RmvCall", func() { r.d.RemoveInput(p); r.addRm.Add(-1) }, obs{E: "RmvRet", C: uint(c), P: p})
+		r.ctl("RmvCall", func() { r.d.RemoveInput(r.cfg.val(p)); r.addRm.Add(-1) }, obs{E: "RmvRet", C: uint(c), P: p})
 	}
 	return true
 }
